@@ -13,11 +13,12 @@ from harness.lib import common
 
 PROP = 'C07'
 PROP_FILE = 'Props/C07.v'
-THEOREMS = ['C07_slice_is_record', 'C07_one_line_per_response', 'C07_line_addresses_its_record', 'C07_fields_agree']
+THEOREMS = ['C07_slice_is_record', 'C07_one_line_per_response', 'C07_line_addresses_its_record', 'C07_fields_agree',
+            'C07_status_mime_partial', 'C07_status_code_of_status_line']
 TRUSTED = c05.TRUSTED + [
-    'the status / MIME clause (get_http_header, parse_mimetype: Model/WarcText.v) is tied by correspondence and by '
-    'the implementation-side comparison with the generated response header only; C07_fields_agree states that the '
-    'line carries what the sniffing function returns',
+    'status / MIME clause: C07_status_mime_partial proves it for the model of get_http_header / parse_mimetype up to the '
+    'interpretation of the field lines by the model of NameValueRecord.parse; the RFC 7230 reading of Content-Type is '
+    'compared with the generated response header on the implementation side',
 ]
 ASSUMPTIONS = [
     'the record test of _write_cdx_field (WARC-Type response, Content-Type application/http; msgtype=response) defines "response record"',
@@ -27,7 +28,7 @@ ASSUMPTIONS = [
 
 
 def correspondence(ctx):
-    return c05.correspondence_for(ctx, 'c07', 200, 5000, 500000, force_cdx=True, only=c05.is_c07)
+    return c05.correspondence_for(ctx, 'c07', 200, 2000, 600000, force_cdx=True, only=c05.is_c07, model_limit_thorough=8000000)
 
 
 def search(ctx, disagreements):
@@ -51,8 +52,11 @@ LEVEL_TEXT = ('Coq theorems (closed under the global context) for EVERY event hi
               'rollover never truncates a file that already has records), the meta file and appending to existing files (C07_slice_is_record); the CDX '
               'lines are exactly one per record passing the response test, in order, and the CDX file is its earlier content / header followed by '
               'these lines (C07_one_line_per_response); each line\'s file name, offset and length address exactly its record '
-              '(C07_line_addresses_its_record); URL, record id, checksum and date are the record\'s fields (C07_fields_agree).')
-LEVEL_NOTE = ('The status-code / MIME-type clause is NOT a theorem: the model of get_http_header / parse_mimetype is evaluated against the real code '
-              'byte for byte and the implementation\'s CDX status / MIME are compared with the generated response header (multi-line, LF-only, folded, '
-              '> 4096 bytes, interim 1xx, token characters) on every run. Trusted: Coq kernel + vm_compute; the hand-written model and the harness.')
+              '(C07_line_addresses_its_record); URL, record id, checksum and date are the record\'s fields (C07_fields_agree); for every block that starts '
+              'with (interim header blocks and) a header block of LF-terminated lines of any length, the status is the code of the final status line and the '
+              'MIME type the token pair of the first Content-Type among its field lines (C07_status_mime_partial, C07_status_code_of_status_line).')
+LEVEL_NOTE = ('C07_status_mime_partial is partial: field lines are interpreted by the model of NameValueRecord.parse (unfolding, name normalisation), not by an '
+              'independent RFC 7230 grammar; the model of get_http_header / parse_mimetype is evaluated against the real code byte for byte and the '
+              'implementation\'s CDX status / MIME are compared with the generated response header (multi-line, LF-only, folded, > 4096 bytes, interim 1xx, '
+              'token characters) on every run. Trusted: Coq kernel + vm_compute; the hand-written model and the harness.')
 TECHNIQUE = c05.TECHNIQUE
